@@ -472,6 +472,10 @@ func render(logical, tok string, builtin []byte) []byte {
 		return []byte("name: [unclosed\n  - : :\n\t{{{\n")
 	case strings.HasPrefix(tok, "x"):
 		return []byte(tok)
+	case strings.HasPrefix(logical, "f/") && tok[0] == 'w':
+		// the same flow as v<k>, in a longer file (so that rewrites lengthen and shorten files)
+		b := render(logical, "v"+tok[1:], builtin)
+		return append(b, []byte(strings.Repeat("# padding padding padding padding padding\n", 3+k))...)
 	case strings.HasPrefix(logical, "f/") && tok[0] == 'v':
 		s := stem(logical)
 		return []byte(fmt.Sprintf(`name: flow_%[1]s
